@@ -110,7 +110,8 @@ func runC06(c *Ctx) {
 	ruleNoGetBody(c, p, "C06.A")
 	ruleChainNotRetried(c, p, "C06.A")
 	c06Refusal(c, p, "C06.R")
-	c.Rule("C06.B", "the replay buffer retains exactly the bytes it handed out, at the offsets it handed them out", 9)
+	c.Rule("C06.B", "the replay buffer retains exactly the bytes it handed out, at the offsets it handed them out", 10)
+	ruleNoOwnCopyLoop(c, p, "C06.B", "agent/utils")
 	c06Retain(c, p, "C06.B")
 	c06Fence(c, p, "C06.X", f)
 	c06Unblock(c, p)
